@@ -70,6 +70,12 @@ def finder_clauses(rec, lab, name, f, s, case):
         rec.nt("%s|%s|%s|%s" % (case["uid"], case.get("step"), name, s))
     if [str(x) for x in lst] != strs:
         rec.violation("as_sid_vs_strings", c, "%r vs %r" % ([str(x) for x in lst][:5], strs[:5]))
+    # (as_sid=True yields Sid objects, as_sid=False their strings: the TYPE of what is yielded belongs to the clause)
+    if not all(isinstance(x, Sid) for x in lst) or not all(type(x) is str for x in strs):
+        rec.violation("as_sid_yields_wrong_kind_of_object", c, "as_sid=True: %r ; as_sid=False: %r" % (
+            sorted({type(x).__name__ for x in lst}), sorted({type(x).__name__ for x in strs})))
+    if lst and one is not None and not isinstance(one, Sid):
+        rec.violation("as_sid_yields_wrong_kind_of_object", c, "find_one: %r" % type(one).__name__)
     if bool(ex) != bool(lst) or not isinstance(ex, bool):
         rec.violation("exists_vs_find", c, "exists=%r find=%r" % (ex, strs[:3]))
     if lst:
